@@ -361,7 +361,7 @@ class Exec:
     # -- memory ------------------------------------------------------------
     def heap_key(self, reckey, off, bits):
         reckey, off = self.reg.field_alias.get((reckey, off), (reckey, off))
-        return "%s|%d|%d" % (reckey, off, bits)
+        return "%s:%d:%d" % (reckey, off, bits)
 
     def get_heap(self, st, key, bits):
         if key not in st.fh:
